@@ -435,11 +435,11 @@ break ;
 }
 }
 }
-let remainder = chunks . remainder ( ) ;
 proof {
-assert ( remainder @ =~= ce_rest ( chunks ) ) ;
-assert ( remainder @ . len ( ) < 32 ) ;
+assert ( ce_size ( chunks ) == 32 ) ;
+assert ( ce_rest ( chunks ) . len ( ) < 32 ) ;
 }
+let remainder = chunks . remainder ( ) ;
 if ! remainder . is_empty ( ) {
 self . buffer [ .. remainder . len ( ) ] . copy_from_slice ( remainder ) ;
 self . buffer_len = remainder . len ( ) ;
@@ -447,7 +447,6 @@ self . buffer_len = remainder . len ( ) ;
 proof {
 let rest = ce_rest ( chunks ) ;
 assert ( rest . len ( ) < 32 ) ;
-assert ( remainder @ =~= rest ) ;
 assert ( self . buffer_len == rest . len ( ) ) ;
 assert ( rest =~= st . skip ( done + 32 * i as int ) ) ;
 assert ( pre . buffer_len + all . len ( ) == 32 * ( base + i ) + self . buffer_len ) ;
